@@ -92,7 +92,7 @@ func init() {
 	})
 	property(&Property{
 		ID:      "C19",
-		Rules:   []string{"OM-model", "OM-lock"},
+		Rules:   []string{"OM-model", "OM-lock", "OM-model-deep"},
 		Explain: "Every type with the generated ordered-map shape (found structurally: data map, order slice, mx RWMutex; three today) is checked against a reference insertion-ordered map written from the property text. The methods' SSA is interpreted abstractly on every reachable implementation state over a universe of three keys and two values (keys are only compared for equality, values only copied, so this is every distinguishable case of one operation); callbacks are opaque functions whose verdicts are forked atoms. For each state x method x argument x callback valuation: return value, exact sequence of callback invocations (every entry exactly once, in insertion order), and the successor state (order duplicate-free, same key set as data, equal to the reference's) must agree; since every operation from every reachable state agrees including the successor state, every operation sequence agrees by induction. OM-lock: in every interpreted run m.mx is held around each access to data/order (write lock when the state changes) and released on every exit.",
 		Assume: []string{
 			"MarshalJSON: the iteration order and the values passed to json.Marshal are compared, not the produced bytes",
@@ -109,7 +109,7 @@ func init() {
 	const tableLevel = "Each table is a complete decision, over every valuation of its finite atoms, of one structural clause of the property on the current tree; cells the statement does not determine are don't-care. Necessary conditions of the behavioural statement, not the statement as a whole."
 	property(&Property{
 		ID:      "C01",
-		Rules:   []string{"T7", "T8", "TA", "T-object", "T-array", "T-tree", "T-list", "T-any", "T11", "FR-1", "VF-1", "T-rawkey"},
+		Rules:   []string{"T7", "T8", "TA", "T-object", "T-array", "T-tree", "T-list", "T-any", "T11", "FR-1", "VF-1", "T-rawkey", "T-tree-deep"},
 		Explain: "T-rawkey: a document key finds its property by its decoded text (escape sequences resolved). FR-1: no field of a long-lived object (API objects, compiled schema, constraints) and no package variable can hold a per-operation helper (validator tree, validators, example builder, collectors, checker state), so the bookkeeping of one operation cannot reach the next or a concurrent one. VF-1: a validator has no slot for other validators except its parent link: child validators are made for one value and handed to the tree. T7: the JSON-kind compatibility decision of a scalar document value against a scalar example node (same kind | integer for float | null only where nullable is present; skipped only under an enum rule), extracted from checkNotAnEnum for every document kind x example kind x presence of nullable/enum. T8: required-key registration in the compiler — a property becomes required iff it is not optional (optional absent and keys not optional by default, or optional:false); optional on a non-property is rejected; the registered key is the node's own. TA: ArrayNode.Child selects example element min(i, len-1) and rejects on an empty example array, for all orderings of i against len. T-object: the object validator per lexical event — a key removes exactly itself from the keys still owed, the object may end only when nothing is owed, a key the example names is validated against that property, an unknown key goes to key shortcuts, then additionalProperties, else is rejected at the key. T-array: an item is checked against the example element at the running index, which advances by one; array-end gives the item count to every item-count rule. T-tree: the live-candidate bookkeeping of Tree.FeedLeaves for 1..3 candidates and all per-candidate outcomes (reject iff all failed; failed ones dropped; completed ones step back to their parent; children spliced in). T-any/T11: type any swallows exactly one value by depth counting, IsOpening classifies the JSON events correctly.",
 		Assume: []string{
 			"each table decides one step (one lexical event, one call) for all valuations of its atoms; the composition of steps over a whole document (required-key dynamics across nested objects, duplicate keys, property order) is not decided",
@@ -134,7 +134,7 @@ func init() {
 	})
 	property(&Property{
 		ID:      "C08",
-		Rules:   []string{"T1", "T2", "T5", "T6", "T9", "OM-model", "T-pairs", "T-banned", "T-compat"},
+		Rules:   []string{"T1", "T2", "T5", "T6", "T9", "OM-model", "T-pairs", "T-banned", "T-compat", "OM-model-deep"},
 		Explain: "T-banned: allowedConstraintCheck rejects exactly the combinations format rule + minLength/maxLength/regex and any + const, decided from the rules present on the node. T-compat: checkCompatibilityOfConstraints rejects a plain node iff one of its rules does not apply to its kind, whatever other rules are present. T-pairs: checkPairConstraints runs the pair check that applies to a plain JSON kind and all three on nodes whose kind does not decide (rule-sets of an or rule are compiled on nodes of kind mixed). T1: the applicability matrix — IsJsonTypeCompatible of every constraint type evaluated on every JSON kind equals the matrix the property states (numeric rules on numbers, precision on float, length/regex/format rules on strings, item counts on arrays, additionalProperties/allOf on objects). T2: every rule name builds the constraint of that name, unknown names are rejected. T5: paired bounds are accepted iff min<=max (strictly when either is exclusive), minLength<=maxLength, minItems<=maxItems. T6: exclusive flags without their bound are rejected. T9 + OM-model: the false-rule filter removes exactly nullable:false/const:false, and the ordered map's Filter visits every entry exactly once whatever is removed — the source of the order dependence named in the property.",
 		Assume: []string{
 			"companion-rule exclusivity counts (or / enum / any / type references with foreign rules), duplicate-rule detection and order independence beyond the filter are not decided",
@@ -196,7 +196,7 @@ func init() {
 	})
 	property(&Property{
 		ID:      "C15",
-		Rules:   []string{"EX-shape", "PL-1"},
+		Rules:   []string{"EX-shape", "PL-1", "EX-shape-deep"},
 		Explain: "EX-shape: the object and array example builders are interpreted abstractly for containers with 0..3 children, every child either emitted or omitted (recursion cut-off): the recorded sequence of buffer writes must be an opening bracket, the emitted elements in order exactly once with exactly one separator between two emitted elements and none dangling, and a closing bracket; object keys must be written from their source token or through an encoder, never from the decoded key text. PL-1: the returned bytes do not alias the pooled buffer.",
 		Assume: []string{
 			"that the emitted value validates against its schema, the choice among or-alternatives and the recursion cut-off depth are not decided",
@@ -208,7 +208,7 @@ func init() {
 	})
 	property(&Property{
 		ID:      "C03",
-		Rules:   []string{"T10", "T-tree", "T-list", "T-object", "T-any", "AL-1", "VIS-allof", "VF-1", "NU-1"},
+		Rules:   []string{"T10", "T-tree", "T-list", "T-object", "T-any", "AL-1", "VIS-allof", "VF-1", "NU-1", "T-tree-deep"},
 		Explain: "NU-1: anonymous or-item types are named after their own schema object, so the anonymous types of several user types cannot collide when they are hoisted into one root. VF-1: a validator has no slot for other validators except its parent link: child validators are made for one value and handed to the tree. VIS-*: the recursive walks (schema checker, allOf compiler, used-type collector) and the loops over the type table reach every child and every type — the visiting call is on every path through the loop body and the loop on every path to a normal return, the only bypasses being a failed comma-ok test and loop exhaustion. T10: the additionalProperties dispatch — rule text to mode (any/true, false, @type, a schema type name, anything else rejected) and mode to validator (any value / reject the key / kind check for object, array, scalar / the named type's validators), exhaustive over the declared modes. T-tree: union semantics of candidate validators — every live candidate receives each lexeme and a position is rejected only when every candidate failed (1..3 candidates x all outcomes). T-object: an unknown key is offered to the key shortcuts, then to additionalProperties, else rejected. T-any: additionalProperties any swallows one whole value.",
 		Assume: []string{
 			"which validators a types list expands to (transitive expansion, de-duplication by name), allOf inheritance and the matching of a key against a shortcut's string type are not decided",
